@@ -22,7 +22,7 @@ From TucModel Require Import Base.Bytes Base.ListX Model.Bounds Spec.Resolve Pro
   Model.CutBytes Spec.BytesMode Tie.Gen_cut_bytes Tie.Bridge_cut_bytes
   Spec.Fields Proofs.ScanSplit Tie.RsScan Tie.Gen_fill_fields Tie.Bridge_fill_fields Tie.Gen_compress_delimiter Tie.Bridge_compress_delimiter
   Proofs.C01More Tie.Gen_trim Tie.Bridge_trim
-  Tie.Gen_fb_try_from Tie.Bridge_fb_try_from Tie.Gen_print_field Tie.Bridge_print_field Tie.Gen_print_bof Tie.Bridge_print_bof Model.CutBytes Tie.Gen_print_rest Tie.Bridge_print_rest Tie.Gen_cut_lines Tie.Bridge_cut_lines Tie.Gen_read_and_cut_bytes Tie.Bridge_read_and_cut_bytes Tie.Gen_get_last_bound Tie.Bridge_get_last_bound
+  Tie.Gen_fb_try_from Tie.Bridge_fb_try_from Tie.Gen_print_field Tie.Bridge_print_field Tie.Gen_print_bof Tie.Bridge_print_bof Model.CutBytes Tie.Gen_print_rest Tie.Bridge_print_rest Tie.Gen_cut_lines Tie.Bridge_cut_lines Tie.Gen_read_and_cut_bytes Tie.Bridge_read_and_cut_bytes Tie.Gen_get_last_bound Tie.Bridge_get_last_bound Tie.Gen_lines_forward Tie.Bridge_lines_forward
   Proofs.C06 Proofs.PlainMulti Tie.RsCut Tie.Gen_cut_str Tie.Bridge_cut_str
   Model.Utf8 Model.CutLines Proofs.C05 Proofs.C03Full Proofs.C05Full Tie.RsLines Tie.Gen_read_and_cut_lines Tie.Bridge_read_and_cut_lines
   Proofs.C12 Proofs.C16 Tie.Gen_fill_regex Tie.Bridge_fill_regex Tie.Gen_trim_regex Tie.Bridge_trim_regex Tie.Gen_compress_regex Tie.Bridge_compress_regex
@@ -506,7 +506,20 @@ Theorem tie_C19_last_bound_invariant : forall (u : ublist) (fb : gfb),
   exists b, gen_get_last_bound fb = Ret b /\ In (Bound b) (items (fb_list fb)).
 Proof. exact tie_get_last_bound. Qed.
 
+(** C13/C05 over the translated one-line-at-a-time reader, for what happens once the input is exhausted:
+    a pending bound that has printed lines is complete only if it is open on the right; every other pending
+    bound prints its own fallback, else the generic one, else the run fails; then one EOL *)
+Theorem tie_C13_lines_forward_finish : forall (o : opt) (sin out lb : bytes) (li : Z) (i : nat) (an : bool),
+  (i <= length (items (o_bounds o)))%nat -> Z.of_nat (length (items (o_bounds o))) + 1 <= usize_max ->
+  (an = true -> exists b, nth_error (items (o_bounds o)) i = Some (Bound b)) ->
+  match fwd_finish o (skipn i (items (o_bounds o))) an with
+  | Some r => gen_lines_forward_s5 sin out o lb li (Z.of_nat i) an = Ret (Some tt, out ++ r ++ [o_eol o])
+  | None => exists p, gen_lines_forward_s5 sin out o lb li (Z.of_nat i) an = Ret (None, p)
+  end.
+Proof. exact tie_lines_forward_finish. Qed.
+
 Print Assumptions tie_try_into_range_spec.
+Print Assumptions tie_C13_lines_forward_finish.
 Print Assumptions tie_C19_last_bound_invariant.
 Print Assumptions tie_C06_whole_byte_mode.
 Print Assumptions tie_C05_buffered_reader.
